@@ -40,6 +40,10 @@ def make_objective(name, np, ub, rettype):
         return lambda x: conv(np.sum(x ** 2))
     if name == 'boundary':
         return lambda x: conv(np.sum((x - ubc) ** 2))
+    if name == 'outside':
+        # the unconstrained optimum lies beyond the upper bounds: every out-of-box step towards it is an improvement
+        tgt = ubc + 1.0 + 0.5 * np.abs(ubc)
+        return lambda x: conv(np.sum((x - tgt) ** 2))
     if name == 'rastrigin':
         return lambda x: conv(10 * x.size + np.sum(x ** 2 - 10 * np.cos(2 * np.pi * x)))
     if name == 'plateau':
@@ -66,7 +70,7 @@ def make_objective(name, np, ub, rettype):
 
 
 OBJECTIVES = ['sphere', 'boundary', 'rastrigin', 'plateau', 'constant', 'zero', 'intval', 'negative',
-              'signchange', 'positive', 'weighted']
+              'signchange', 'positive', 'weighted', 'outside']
 
 
 # ------------------------------------------------------------------------------ configurations
@@ -108,6 +112,8 @@ def hyper_sample(rng, kind, n_agents, mode):
         return {}
     u = rng.uniform
     e = mode == 'ends'
+    if mode in ('degenerate', 'outside') and kind not in ('AIWPSO', 'IHS'):
+        mode = 'random'
 
     def pick(lo, hi):
         return rng.choice([lo, hi]) if e else round(u(lo, hi), 3)
@@ -115,7 +121,12 @@ def hyper_sample(rng, kind, n_agents, mode):
         return {'w': pick(0.0, 1.0), 'c1': pick(0.0, 2.5), 'c2': pick(0.0, 2.5)}
     if kind == 'AIWPSO':
         a, b = sorted([pick(0.0, 1.0), pick(0.0, 1.0)])
-        return {'w': a if e else round(u(a, b), 3), 'c1': pick(0.0, 2.5), 'c2': pick(0.0, 2.5), 'w_min': a, 'w_max': b}
+        if mode == 'degenerate':
+            b = a
+        w = a if e else round(u(a, b), 3)
+        if mode == 'outside':   # the user's initial w need not lie inside [w_min, w_max]; the adapted one must
+            w = rng.choice([round(b + u(0.1, 1.0), 3), max(0.0, round(a - u(0.1, 1.0), 3)), 0.0, 1.25])
+        return {'w': w, 'c1': pick(0.0, 2.5), 'c2': pick(0.0, 2.5), 'w_min': a, 'w_max': b}
     if kind == 'ABC':
         return {'n_trials': rng.choice([1, 3, 10])}
     if kind == 'BA':
@@ -136,6 +147,11 @@ def hyper_sample(rng, kind, n_agents, mode):
     if kind == 'IHS':
         a, b = sorted([pick(0.0, 1.0), pick(0.0, 1.0)])
         c, d = sorted([pick(0.05, 5.0), pick(0.05, 5.0)])
+        if mode == 'degenerate':
+            if rng.random() < 0.7:
+                d = c
+            if rng.random() < 0.5:
+                b = a
         return {'HMCR': pick(0.0, 1.0), 'PAR_min': a, 'PAR_max': b, 'bw_min': c, 'bw_max': d}
     if kind == 'SA':
         return {'T': rng.choice([1e-12, 1e-300, 100.0]) if e else rng.choice([round(u(0.01, 100.0), 3), 1e-12, 5e-11]), 'beta': pick(0.01, 1.0)}
@@ -157,6 +173,19 @@ FUNCSETS = [['SUM', 'SUB', 'MUL', 'DIV'], ['SUM', 'MUL', 'SIN', 'COS'], ['SUB', 
             ['MUL', 'LOG', 'EXP']]
 
 
+def hyper_post_sample(rng, kind, n_agents, hyper):
+    """one non-adaptive hyperparameter re-set through its setter after construction (a legal value
+    that keeps every ordered pair ordered)"""
+    fresh = hyper_sample(rng, kind, n_agents, 'random')
+    skip = ADAPTIVE.get(kind, set()) | {'w_min', 'w_max', 'PAR_min', 'PAR_max', 'bw_min', 'bw_max', 'f_min', 'f_max',
+                                       'r_min', 'r_max', 'nsr'}
+    ks = [k for k in fresh if k not in skip and fresh[k] != hyper.get(k)]
+    if not ks:
+        return {}
+    k = rng.choice(ks)
+    return {k: fresh[k]}
+
+
 def gen_configs(tier, seed):
     rng = random.Random(seed * 7919 + (1 if tier == 'quick' else 2))
     reps = 9 if tier == 'quick' else 120
@@ -176,7 +205,7 @@ def gen_configs(tier, seed):
                 box = 'wide'   # velocity >= LIGHT_SPEED: known finding K5, replayed from its witness
             lb, ub = make_box(rng, box, nv)
             obj = rng.choice(OBJECTIVES)
-            if kind == 'WCA' and obj not in ('positive', 'intval', 'constant', 'rastrigin', 'weighted'):
+            if kind == 'WCA' and obj not in ('positive', 'intval', 'constant', 'rastrigin', 'weighted', 'outside'):
                 obj = rng.choice(['positive', 'intval', 'constant'])   # K2: non-positive sums excluded
             if kind == 'BHA' and obj == 'zero':
                 obj = 'positive'                                     # K3
@@ -436,6 +465,9 @@ def build_task(L, cfg, events):
                             upper_bound=list(cfg['ub']))
     # no dictionary at all when the configuration has none: that is how users build a default optimiser
     opt = L['kinds'][kind](hyperparams=dict(cfg['hyper'])) if cfg['hyper'] else L['kinds'][kind]()
+    # values set later through the public setters (after construction, before the task starts)
+    for k, v in (cfg.get('hyper_post') or {}).items():
+        setattr(opt, k, v)
     box_ub = [1.0] * cfg['n_vars'] if cfg['space'] == 'hyper' else cfg['ub']
     if cfg['objective'] == 'weighted':
         f1 = make_objective('sphere', np, box_ub, cfg['rettype'])
